@@ -1,5 +1,7 @@
 import JediModel.Lemmas.PyCore
 import JediModel.Lemmas.PyCoreExact
+import JediModel.Gen.C02
+import JediModel.Lemmas.ArgBind
 /-! # C02 — Inferred types agree with what the program does when executed
 
 `evalC` is the concrete semantics of the PyCore fragment (validated against CPython on every
@@ -121,5 +123,121 @@ example :
     p.ternFree = true ∧ WFClasses p = true ∧ SingleAssignInit p = true ∧
     (evalC p 30 (.module 2) (.name 4)).map Val.top = some .str ∧
     (mayE p 30 (.module 2) (.name 4)).map Shape.top = [.str] := by decide
+
+/-! ## Argument-to-parameter binding (`Model/ArgBind`)
+
+`bindJ` transcribes `jedi/inference/param.py:get_executed_param_names_and_issues` (validated
+against the real function on every run), `bindPy` is CPython's call-binding rule (validated
+against CPython itself on every run).  The model is instantiated with the constants that
+`translator/gen_c02.py` reads from the source (`Gen/C02.lean`): a source edit that changes one
+of them (no `push_back`, swapped `star_count` tests, `if` instead of `while`, ...) makes this
+file fail to build. -/
+section Bind
+open JediModel.ArgBind
+
+/-- the model instantiated with the constants read from the source under test -/
+def cfgSrc : Cfg :=
+  { pushBack := JediModel.Gen.C02.pushBackInStarLoop
+    tupleStarCount := JediModel.Gen.C02.starCountTuple
+    dictStarCount := JediModel.Gen.C02.starCountDict
+    skipUnknown := JediModel.Gen.C02.keysUsedSkipsUnknown
+    resetNonMatching := JediModel.Gen.C02.resetsNonMatching }
+
+/-- f(a, b=D, *rest, k, **opts)   (names: a=0 b=1 rest=2 k=3 opts=4) -/
+def sigExample : List Param :=
+  [⟨0, .pos, false⟩, ⟨1, .pos, true⟩, ⟨2, .star, false⟩, ⟨3, .kwOnly, false⟩, ⟨4, .dstar, false⟩]
+
+/-- **The source has the shape the model transcribes**: the parameters of the model have the
+validated values and the statements `bindJ` transcribes without a parameter are in place. -/
+theorem bind_source_is_modelled :
+    cfgSrc = cfgRef ∧
+    JediModel.Gen.C02.keyLoopIsWhile = true ∧ JediModel.Gen.C02.keyLoopAdvances = true ∧
+    JediModel.Gen.C02.keyLoopSetsKeysOnly = true ∧
+    JediModel.Gen.C02.unknownKeyToNonMatching = true ∧
+    JediModel.Gen.C02.keywordBindsUnlessUsed = true ∧
+    JediModel.Gen.C02.usedParamContinues = true ∧ JediModel.Gen.C02.normalBranchShape = true ∧
+    JediModel.Gen.C02.pushBackIsCons = true ∧ JediModel.Gen.C02.keywordsAfterPositionals = true := by
+  decide
+
+/-- **jedi binds what CPython binds.**  For every signature Python's grammar allows (`WFSig`:
+distinct names, `Pos* Star? KwOnly* DStar?`, any defaults) and every call `f(*pos, **kws)` with
+distinct keywords that CPython accepts - any number of positional and keyword arguments - jedi
+binds every parameter to exactly what CPython binds: the same argument, the default, the same
+tuple for `*args`, the same dict in the same order for `**kwargs`.  Extra hypothesis
+`kwsAvoidStarNames` (no keyword is spelled like the `*args`/`**kwargs` parameter): forced, see
+`bind_agrees_full_witness`. -/
+theorem bind_agrees_partial (ps : List Param) (pos : List Arg) (kws : List (Name × Arg))
+    (env : List (Name × Bound)) (hwf : WFSig ps = true) (hkn : (kws.map Prod.fst).Nodup)
+    (havoid : kwsAvoidStarNames ps kws = true) (h : bindPy ps pos kws = some env) :
+    bindJ cfgSrc ps (pos.map (fun a => (none, a)) ++ kws.map (fun (k, a) => (some k, a))) = env := by
+  rw [bind_source_is_modelled.1]
+  unfold bindPy at h
+  split at h
+  · rename_i hacc
+    cases h
+    simp only [accepts, Bool.and_eq_true, Bool.not_eq_true'] at hacc
+    exact bindJ_eq_fill ps pos kws hwf hkn havoid hacc.1.1.1
+  · cases h
+
+example : WFSig sigExample = true ∧ ([(3, 13), (9, 14)].map Prod.fst).Nodup ∧
+    kwsAvoidStarNames sigExample [(3, 13), (9, 14)] = true ∧
+    bindPy sigExample [10, 11, 12] [(3, 13), (9, 14)] =
+      some [(0, .arg 10), (1, .arg 11), (2, .tuple [12]), (3, .arg 13), (4, .dict [(9, 14)])] := by
+  decide
+
+/-- The same without looking at CPython's other reasons to reject (missing, unexpected or
+repeated arguments): as long as there are not too many positional arguments, jedi's binding is
+the left-to-right fill - a missing required parameter is `unknown`. -/
+theorem bind_best_effort (ps : List Param) (pos : List Arg) (kws : List (Name × Arg))
+    (hwf : WFSig ps = true) (hkn : (kws.map Prod.fst).Nodup)
+    (havoid : kwsAvoidStarNames ps kws = true) (hlen : tooManyPositional ps pos = false) :
+    bindJ cfgSrc ps (callArgs pos kws) = fill kws (extraKws ps kws) ps pos := by
+  rw [bind_source_is_modelled.1]
+  exact bindJ_eq_fill ps pos kws hwf hkn havoid hlen
+
+/-- f(a, b=D, *rest, k, **opts) called f(A0, x=A1): CPython raises (k missing), jedi: k unknown -/
+example : WFSig sigExample = true ∧ kwsAvoidStarNames sigExample [(9, 11)] = true ∧
+    tooManyPositional sigExample [10] = false ∧ bindPy sigExample [10] [(9, 11)] = none ∧
+    bindJ cfgSrc sigExample (callArgs [10] [(9, 11)]) =
+      [(0, .arg 10), (1, .default), (2, .tuple []), (3, .unknown), (4, .dict [(9, 11)])] := by
+  decide
+
+/-- FULL statement (without `kwsAvoidStarNames`) is false of the unchanged code:
+`def f(**kw): ...` / `f(kw=A)` - CPython: `kw = {'kw': A}`; jedi looks the keyword up in
+`param_dict`, which also holds `kw`, binds the parameter `kw` to `A` itself and never builds the
+dict.  Likewise `def g(*rest, **kw)` / `g(rest=A)`. (names: kw=0 rest=1; argument 7) -/
+theorem bind_agrees_full_witness :
+    WFSig [⟨0, .dstar, false⟩] = true ∧ ([(0, 7)].map Prod.fst).Nodup ∧
+    kwsAvoidStarNames [⟨0, .dstar, false⟩] [(0, 7)] = false ∧
+    bindPy [⟨0, .dstar, false⟩] [] [(0, 7)] = some [(0, .dict [(0, 7)])] ∧
+    bindJ cfgSrc [⟨0, .dstar, false⟩] (callArgs [] [(0, 7)]) = [(0, .arg 7)] ∧
+    bindPy [⟨1, .star, false⟩, ⟨0, .dstar, false⟩] [] [(1, 7)] = some [(1, .tuple []), (0, .dict [(1, 7)])] ∧
+    bindJ cfgSrc [⟨1, .star, false⟩, ⟨0, .dstar, false⟩] (callArgs [] [(1, 7)]) = [(1, .arg 7), (0, .dict [])] := by
+  decide
+
+/-- **Shape of the result**, whatever the source constants, the signature and the arguments
+(well-formed or not, accepted by CPython or not): one entry per parameter, in parameter order,
+under the parameter's name. -/
+theorem bindJ_total (cfg : Cfg) (ps : List Param) (args : List (Option Name × Arg)) :
+    (bindJ cfg ps args).map Prod.fst = ps.map (·.name) ∧ (bindJ cfg ps args).length = ps.length := by
+  have h := bindJ_names cfg ps args
+  exact ⟨h, by simpa using congrArg List.length h⟩
+
+example : (bindJ cfgSrc sigExample (callArgs [10, 11, 12] [(3, 13), (9, 14)])).map Prod.fst = [0, 1, 2, 3, 4] := by
+  decide
+
+/-- **The `push_back` matters.**  `def f(a, *rest, k)` / `f(A0, A1, k=A2)`: the `*args` loop
+reads `k=A2` to find the end of the positional arguments; without
+`var_arg_iterator.push_back((key, argument))` that keyword is lost - `k` is unknown - while the
+source as it is binds `k` to `A2` as CPython does. (names: a=0 rest=1 k=2) -/
+theorem bind_without_push_back_loses_keyword :
+    let ps : List Param := [⟨0, .pos, false⟩, ⟨1, .star, false⟩, ⟨2, .kwOnly, false⟩]
+    bindPy ps [10, 11] [(2, 12)] = some [(0, .arg 10), (1, .tuple [11]), (2, .arg 12)] ∧
+    bindJ cfgSrc ps (callArgs [10, 11] [(2, 12)]) = [(0, .arg 10), (1, .tuple [11]), (2, .arg 12)] ∧
+    bindJ { cfgSrc with pushBack := false } ps (callArgs [10, 11] [(2, 12)]) =
+      [(0, .arg 10), (1, .tuple [11]), (2, .unknown)] := by
+  decide
+
+end Bind
 
 end JediModel.Props.C02
